@@ -4,10 +4,11 @@ Grid: timeouts.idle in {absent,0,3,7} x timeouts.udp in {absent,0,4,9}; one live
 reverse tcp / socks5 UDP associate, reverse udp, http CONNECT with Proxy-Protocol: udp); /api/live must report the
 configured (or default 600) period for that kind. Timing: a silent tunnel is closed after T (+ticker+slack), not
 before; T = 0 never closes within the horizon."""
-import sys, json, itertools
+import sys, json, itertools, ssl
 sys.path.insert(0, '/verif/e4')
 from lib import *
 
+ensure_certs()
 chk = Check('C13')
 echo = Origin('echo')
 uecho = socket.socket(socket.AF_INET, socket.SOCK_DGRAM)
@@ -301,10 +302,103 @@ for kind, r in zip(SETUPS, run_parallel(SETUPS, slow_setup, workers=6)):
     elif c < SETUP_T - SETUP_SLACK:
         chk.violation('timeout.timing', f'fresh-tunnel-closed-for-idleness:{kind}', f'idle={SETUP_T}, set-up took {SETUP_DELAY} s: the tunnel was closed {c:.2f} s after the client was told it is established', replay)
     samples.append(replay)
+# ---- a tunnel that carries data all the time, slowly: the receiver takes a few KiB twice a second (small receive
+#      buffer), the sender keeps its side full. Bytes arrive at the receiver every half second - the tunnel is not idle
+#      however long the proxy needs to get rid of one relay buffer
+DRAIN_T = 3
+def slow_drain(case):
+    splice, direction, tls = case
+    hp, ap = free_port(), free_port()
+    got = {'n': 0, 'eof': None, 'last': None}
+    stop = threading.Event()
+    def slow_reader(c):
+        c.settimeout(1.0)
+        while not stop.is_set():
+            try:
+                d = c.recv(6144)
+            except socket.timeout:
+                continue
+            except OSError:
+                got['eof'] = ('reset', time.time()); return
+            if not d:
+                got['eof'] = ('end-of-stream', time.time()); return
+            got['n'] += len(d); got['last'] = time.time()
+            time.sleep(0.5)
+    def fast_writer(c):
+        c.settimeout(1.0)
+        blob = b'x' * 65536
+        while not stop.is_set():
+            try:
+                c.send(blob)
+            except socket.timeout:
+                continue
+            except OSError as e:
+                got['writer_error'] = (repr(e), time.time()); return
+    srv = socket.socket(); srv.setsockopt(socket.SOL_SOCKET, socket.SO_REUSEADDR, 1)
+    if direction == 'client-to-origin':
+        srv.setsockopt(socket.SOL_SOCKET, socket.SO_RCVBUF, 4096)
+    srv.bind(('127.0.0.1', 0)); srv.listen(2)
+    def origin_side():
+        try:
+            c, _ = srv.accept()
+        except OSError:
+            return
+        (slow_reader if direction == 'client-to-origin' else fast_writer)(c)
+        try: c.close()
+        except OSError: pass
+    threading.Thread(target=origin_side, daemon=True).start()
+    cfg = {'listeners': [dict({'name': 'http', 'bind': f'127.0.0.1:{hp}'}, **({'tls': {'cert': f'{CERTS}/server.crt', 'key': f'{CERTS}/server.key'}} if tls else {}))], 'connectors': [{'name': 'direct'}], 'rules': [{'target': 'direct'}],
+           'timeouts': {'idle': DRAIN_T, 'udp': DRAIN_T}, 'ioParams': {'bufferSize': 65536, 'useSplice': splice}, 'metrics': {'bind': f'127.0.0.1:{ap}', 'ui': None}}
+    px = Proxy(cfg, 'c13d')
+    px.api_port = ap
+    if not px.start([hp, ap]):
+        return {'error': px.log()[-300:]}
+    try:
+        raw = socket.socket()
+        if direction == 'origin-to-client':
+            raw.setsockopt(socket.SOL_SOCKET, socket.SO_RCVBUF, 4096)
+        raw.settimeout(5)
+        raw.connect(('127.0.0.1', hp))
+        if tls:
+            raw = ssl.create_default_context(cafile=f'{CERTS}/ca.crt').wrap_socket(raw, server_hostname='localhost')
+        s, code, head, rest = http_connect(None, '127.0.0.1:%d' % srv.getsockname()[1], sock=raw, timeout=5)
+        if code != 200:
+            return {'error': f'CONNECT -> {code}'}
+        t0 = time.time()
+        th = threading.Thread(target=(fast_writer if direction == 'client-to-origin' else slow_reader), args=(s,), daemon=True)
+        th.start()
+        RUN = 4 * DRAIN_T + 1
+        while time.time() - t0 < RUN and got['eof'] is None and 'writer_error' not in got:
+            time.sleep(0.1)
+        ended = got['eof'] or got.get('writer_error')
+        out = {'received_by_slow_side': got['n'], 'seconds': round(time.time() - t0, 1), 'ended': None if ended is None else (ended[0], round(ended[1] - t0, 1)),
+               'since_last_bytes_at_receiver_s': None if ended is None or got['last'] is None else round(ended[1] - got['last'], 2), 'log': px.log()[-200:] if ended else ''}
+        stop.set()
+        th.join(2)
+        try: s.close()
+        except OSError: pass
+        return out
+    finally:
+        stop.set()
+        srv.close()
+        px.stop()
+
+DRAINS = [(sp_, d, False) for sp_ in (True, False) for d in ('client-to-origin', 'origin-to-client')] + [(True, 'origin-to-client', True), (False, 'client-to-origin', True)]
+for case, r in zip(DRAINS, run_parallel(DRAINS, slow_drain, workers=6)):
+    evals += 1
+    if isinstance(r, tuple) or 'error' in r:
+        machinery(f'slow drain {case}: {r}')
+    distinct.add(('slow-drain', case, r['ended'] is None))
+    replay = {'timeouts': {'idle': DRAIN_T}, 'useSplice': case[0], 'direction': case[1], 'tls_listener': case[2], 'observed': r}
+    if r['received_by_slow_side'] < 20000:
+        machinery(f'slow drain {case}: the slow side received only {r["received_by_slow_side"]} bytes: {r}')
+    if r['ended'] is not None:
+        chk.violation('timeout.timing', f'tunnel-carrying-data-closed-for-idleness:{case[1]}|splice={case[0]}' + ('|tls' if case[2] else ''), f'idle={DRAIN_T}, useSplice={case[0]}{", TLS listener" if case[2] else ""}: {case[1]} with a receiver that takes 6 KiB twice a second and a sender that never pauses: the tunnel ended ({r["ended"][0]}) after {r["ended"][1]} s, {r["since_last_bytes_at_receiver_s"]} s after bytes last arrived at the receiver; proxy log: {r["log"]}', replay)
+    samples.append(replay)
 echo.stop(); uecho.close()
 if evals < 30 or len(distinct) < 3:
     machinery(f'vacuous: evals={evals} distinct={len(distinct)}')
 cov = {'evaluations': evals, 'distinct_nontrivial': len(distinct), 'transitions': evals, 'traces_validated_against_impl': evals,
-       'rule': 'real binary: timeouts.idle x timeouts.udp grid (16 cells) x 7 tunnel kinds, idle_timeout reported by /api/live vs configured/default; close timing of silent tcp and udp tunnels with T=2, T=0 and four periods whose millisecond count exceeds 64 bits; tcp tunnels and udp associations (socks5, http inline) whose set-up (client handshake / upstream answer) takes longer than the period must get a whole period once established',
+       'rule': 'real binary: timeouts.idle x timeouts.udp grid (16 cells) x 7 tunnel kinds, idle_timeout reported by /api/live vs configured/default; close timing of silent tcp and udp tunnels with T=2, T=0 and four periods whose millisecond count exceeds 64 bits; tcp tunnels and udp associations (socks5, http inline) whose set-up (client handshake / upstream answer) takes longer than the period must get a whole period once established; a tunnel whose receiver drains 6 KiB twice a second under a sender that never pauses (both directions, both I/O modes) stays open for 4 periods',
        'grid_cells': len(grid), 'tunnel_kinds': list(IS_UDP), 'schedule_control': 'kernel', 'samples': samples}
 sys.exit(chk.finish('model_checking', cov, ['E4 part: real clock; late bounds carry 1 s ticker (+1 s GC for the registry) + 2 s slack, early bounds 300 ms (a reply written in two small pieces reaches the client up to a delayed-ACK period after the proxy started the tunnel)']))
